@@ -56,14 +56,17 @@ def model(p):
             used.add(new)
             assoc.append((new, ('field', field, name), 'pub'))
     add('a', out['A']['assoc'])
+    second = 'A' if p.get('b_is_a') else 'B'
+    second_tab = A_tab if p.get('b_is_a') else B_tab
     if p['two_bases']:
-        add('b', out['B']['assoc'])
-        if B_tab: add('b', [(f[0], None, 'pub') for f in B_tab])
+        add('b', out[second]['assoc'])
+        if second_tab: add('b', [(f[0], None, 'pub') for f in second_tab])
     if p['d_impl']:
         if 'kd' in used: return {'accept': False}
         used.add('kd'); assoc.append(('kd', ('address', 0x300), 'pub'))
     D['assoc'] = assoc
     D['regions'] = (['vftable'] if D['own_ptr'] else []) + ['a'] + (['b'] if p['two_bases'] else []) + ['dx']
+    D['base_types'] = ['A'] + ([second] if p['two_bases'] else [])
     out['D'] = D
     # ---- DD
     if p['dd_present']:
@@ -76,11 +79,17 @@ def model(p):
             else: DD = {'table': None, 'base_field': None, 'own_ptr': False, 'table_type': None}
         used = set(f[0] for f in DD['table']) if DD['table'] else set()
         assoc = []
-        for (name, body, vis) in D['assoc']:
-            new = name if name not in used else 'd_%s' % name
-            used.add(new); assoc.append((new, ('field', 'd', name), 'pub'))
+        def add2(field, fns):
+            for (name, body, vis) in fns:
+                if vis != 'pub': continue
+                new = name if name not in used else '%s_%s' % (field, name)
+                used.add(new); assoc.append((new, ('field', field, name), 'pub'))
+        add2('d', D['assoc'])
+        if p.get('dd_two'):
+            add2('b2', out['B']['assoc'])
+            if B_tab: add2('b2', [(f[0], None, 'pub') for f in B_tab])
         DD['assoc'] = assoc
-        DD['regions'] = (['vftable'] if DD['own_ptr'] else []) + ['d', 'ddx']
+        DD['regions'] = (['vftable'] if DD['own_ptr'] else []) + ['d'] + (['b2'] if p.get('dd_two') else []) + ['ddx']
         out['DD'] = DD
     out['A']['regions'] = (['vftable'] if A_tab else []) + ['ax']
     out['B']['regions'] = (['vftable'] if B_tab else []) + ['bx']
@@ -88,12 +97,12 @@ def model(p):
 
 
 NAMES = ['ps', 'a_vft', 'b_vft', 'two_bases', 'd_block', 'mutation', 'dd_present', 'dd_block', 'a_impl', 'b_impl', 'd_impl', 'clash',
-         'a_fn_vis', 'cc', 'd_priv_k']
+         'a_fn_vis', 'cc', 'd_priv_k', 'b_is_a', 'dd_two']
 
 
 def params(args):
-    d = dict(zip(NAMES, [int(x) for x in args[:15]]))
-    d.setdefault('d_priv_k', 0)
+    d = dict(zip(NAMES, [int(x) for x in args[:17]]))
+    for k in ('d_priv_k', 'b_is_a', 'dd_two'): d.setdefault(k, 0)
     return d
 
 
@@ -107,9 +116,9 @@ def describe(args):
     out.append('pub type A { %spub ax: %s }' % (blk(base_fns(p['cc'])) if p['a_vft'] else '', word))
     out.append('pub type B { %spub bx: %s }' % (blk(base_fns(0)) if p['b_vft'] else '', word))
     dblk = blk(d_block_fns(p)) if p['d_block'] == 1 else (blk([('h', '&self', [], None, 'thiscall')]) if p['d_block'] == 2 else '')
-    out.append('pub type D { %s#[base] pub a: A, %spub dx: %s }' % (dblk, '#[base] pub b: B, ' if p['two_bases'] else '', word))
+    out.append('pub type D { %s#[base] pub a: A, %spub dx: %s }' % (dblk, ('#[base] pub b: %s, ' % ('A' if p.get('b_is_a') else 'B')) if p['two_bases'] else '', word))
     if p['dd_present']:
-        out.append('pub type DD { %s#[base] pub d: D, pub ddx: %s }' % (blk([('hh', '&self', [], None, 'thiscall')]) if p['dd_block'] else '', word))
+        out.append('pub type DD { %s#[base] pub d: D, %spub ddx: %s }' % (blk([('hh', '&self', [], None, 'thiscall')]) if p['dd_block'] else '', '#[base] pub b2: B, ' if p.get('dd_two') else '', word))
     if p['a_impl']: out.append('impl A { #[address(0x100)] %sfn k(&self); }' % ('pub ' if p['a_fn_vis'] else ''))
     if p['b_impl']: out.append('impl B { #[address(0x200)] pub fn %s(&self); }' % ('k' if p['clash'] else 'kb'))
     if p['d_impl']: out.append('impl D { #[address(0x300)] pub fn %s(&self); }' % ('k' if p['clash'] == 2 else 'kd'))
